@@ -40,6 +40,23 @@ chk("C17", "schedsim", "exploration",
     "Schedules are sampled (seeded), <= 4 tasks x <= 4 calls; yield points exist at lock operations and call boundaries only (code that takes no lock is covered by the race detector, not by interleaving inside it); the sequential specification for linearizability is the implementation itself run single-threaded (its sequential correctness is the business of C09-C11/C16/C20); porcupine timeouts are counted as inconclusive.",
     SIM + "seeded cooperative scheduler over real goroutines + race detector without scheduler-induced happens-before + porcupine linearizability", "DESIGN.md section 6 C17, section 7")
 CHAIN = "Simulated beacon network on the real zrnt code: 1-3 nodes (slot-by-slot ticker, multi-slot jumper, restarter that rebuilds from SSZ bytes), 16-64 validators with real BLS keys doing honest-validator duties, swarm-drawn presets (small vectors so wrap-arounds, sync periods, eth1 voting periods and queues turn over inside a run) and fork schedules (equal, adjacent, never-activated forks), blocks carrying attestations, slashings, deposits with real Merkle proofs, exits, BLS changes, sync aggregates, payloads, withdrawals, blob commitments; faults: skipped slots, partitions with late batch delivery, crash/restart, competing forks. "
+MODEL = "Oracle: refspec, an independent naive executable transcription of the consensus specification (phase0..deneb; own formulas for every transition, committees per index via compute_shuffled_index, no caches), stepping from the SAME pre-state as zrnt for every transition so that each step of each reached history is its own obligation; post-states compared field for field. "
+chk("C01", "chainsim", "exploration",
+    CHAIN + MODEL + "C01: every block the honest network produces (attestations incl. late and repeated inclusion, proposer/attester slashings, deposits incl. top-ups/bad proofs-of-possession/undecodable keys, exits, BLS changes, partial sync aggregates, payloads, withdrawals, blob commitments; all five forks, blocks in the first slot of fork epochs, competing forks) must be accepted by zrnt AND by the model's process_block, with identical post-state fields and the declared state root; the signed block also passes the model's full state_transition.",
+    "Trusts refspec's fidelity to the spec (written from knowledge of it; no spec text or vectors exist offline; every disagreement on the unchanged tree was triaged by hand), zrnt's plain data struct types and their struct-form hash_tree_root (shared with the model), BLS, SHA-256. States are those a <= 64-validator network reaches in <= 20 epochs; minimal-preset-derived configurations only.",
+    SIM + "step-wise refinement against an executable reference model along simulated network histories", "DESIGN.md section 6 C01")
+chk("C02", "chainsim", "exploration",
+    CHAIN + MODEL + "C02: every ProcessSlots any node makes - single-slot ticks, multi-slot jumps before a block, across epoch boundaries and fork epochs (incl. several forks at one epoch and forks at genesis) - equals the model's process_slots field for field, including the state type after the call; histories include low participation (leaks), slashings, ejections near the ejection balance, exit and activation queues with churn 1-4, deposits, small vectors that wrap.",
+    "As C01. Long leaks / drained balances / mass-slashing episodes are reached only as far as 20-epoch runs with small quotients go.",
+    SIM + "step-wise refinement against an executable reference model along simulated network histories", "DESIGN.md section 6 C02")
+chk("C07", "chainsim", "exploration",
+    CHAIN + MODEL + "C07: on reached states (every node, after transitions and context rebuilds): committee counts and every beacon committee of the previous, current and next epoch, the proposer of every slot of the current epoch, and the cached current/next sync-committee indices and pubkeys equal what the model computes from the state per index; the committees of an epoch partition its active set; an out-of-range committee index is an error.",
+    "As C01; registry sizes 16-88, TARGET_COMMITTEE_SIZE/MAX_COMMITTEES_PER_SLOT/SHUFFLE_ROUND_COUNT/SYNC_COMMITTEE_SIZE are swarm knobs.",
+    SIM + "reference-model comparison of cached assignments on states reached by simulated histories", "DESIGN.md section 6 C07")
+chk("C13", "chainsim", "exploration",
+    "Applies weakly (a pure function of the deposit log), decided as the first step of simulated histories: per run 6 deposit logs from simulated depositors (valid, top-ups via repeated pubkeys, proofs-of-possession under a wrong domain, undecodable pubkeys and signatures, amounts below/at/above 32 ETH, real Merkle proofs over the growing prefix, eth1 timestamps on both sides of MIN_GENESIS_TIME) are turned into genesis states by GenesisFromEth1(..., false) and by the model's initialize_beacon_state_from_eth1: all fields equal, IsValidGenesisState agrees, and the returned context passes the C07/C08 monitors.",
+    "As C01. zrnt documents that it cannot build states with fewer validators than SLOTS_PER_EPOCH or without any active validator (no context can exist); such logs are accepted as refused when the model says they are not a valid genesis.",
+    SIM + "reference-model comparison at the genesis step of simulated histories", "DESIGN.md section 6 C13")
 chk("C04", "chainsim", "exploration",
     CHAIN + "C04 monitors at every seam where bytes leave or enter a node (signed blocks of 5 forks through ForkDecoder, beacon states of 5 forks on the restart/disk path): bytes written == ByteLength, FixedLength says variable, decode(encode(v)) re-encodes identically with the same root, struct-form bytes == tree-view bytes, JSON and YAML round trips; stream faults: legal short reads change nothing, a reader error at a PRNG-chosen byte and a failing writer surface as errors, truncated frames and a wrong first offset are refused (a cut at an element boundary of the trailing list is accepted only if it is itself a canonical encoding).",
     "PARTIAL by design: only types that cross a simulated seam are covered (signed blocks and everything nested in them, beacon states and everything nested in them, phase0..deneb); the 'every exported type x every value' part of the statement is a pure function of the value and is not decided by this technique; Electra, light-client and pending-request types never ride a seam here. No independent SSZ codec: the reference is agreement between the struct form and the tree-view form.",
@@ -54,7 +71,7 @@ chk("C08", "chainsim", "exploration",
     SIM + "incremental-vs-from-scratch refinement along simulated histories with crash/restart and partition faults", "DESIGN.md section 6 C08")
 chk("C14", "chainsim", "exploration",
     CHAIN + "C14 monitors at every state reached on every node under the run's fork schedule: Spec.ForkVersion(slot), ForkDecoder.ForkDigest(epoch), the Go type BlockAllocator(digest) yields, the state type after ProcessSlots, and state.fork (previous/current/epoch) all name the fork the harness's own schedule function names; bytes -> block -> envelope preserves root, signature and state root; blocks signed under the slot's version verify (they are imported with signature validation).",
-    "PARTIAL: the lookup-agreement part is decided; 'a block signed under any other version does not verify' is only covered through C03-style faults once those are claimed; the comparison of the built-in mainnet/minimal constant tables with the published ones is a data comparison, not a simulation, and is not part of this revision.",
+    "PARTIAL: the lookup-agreement part is decided; 'a block signed under any other version does not verify' is only covered through C03-style faults once those are claimed; the built-in mainnet/minimal constant tables are compared with the harness's own table of 148 published constants at the start of every run (a data comparison, not a simulation; constants the author could not recall with certainty are left out).",
     SIM + "fork-schedule swarm (equal/adjacent/never forks) with lookup-agreement invariants at every simulated slot", "DESIGN.md section 6 C14")
 chk("C15", "chainsim", "exploration",
     CHAIN + "C15 monitors: every stored post-state (builder and nodes) is snapshotted as bytes at store time and re-serialized at later events after siblings/descendants derived from CopyState+Clone were advanced by full transitions in PRNG-interleaved order: it must never change; accessor sweep on reached states of all five forks: every getter and typed sub-view element (validators, balances, mixes, roots, slashings, checkpoints, header, eth1 data, fork) equals the encoded state; 17 setters applied to a copy change exactly their field of the encoded state and nothing in the original.",
@@ -90,7 +107,8 @@ engines = [
  {"name": "cachesim", "path": "sim/cachesim", "serves_properties": ["C16"], "kind_free_text": "tree of deposit histories sharing real PubkeyCache handles vs. per-handle list model"},
  {"name": "poolsim", "path": "sim/poolsim", "serves_properties": ["C20"], "kind_free_text": "operation pools fed by faulty arrival histories vs. set/relation model"},
  {"name": "schedsim", "path": "sim/schedsim", "serves_properties": ["C17"], "kind_free_text": "seeded cooperative scheduler over real goroutines on shared components; race detector; porcupine"},
- {"name": "chainsim", "path": "sim/chainsim", "serves_properties": ["C04", "C05", "C08", "C14", "C15", "C18"], "kind_free_text": "simulated beacon network on the real state transition; metamorphic/self oracles + fault enumeration"},
+ {"name": "chainsim", "path": "sim/chainsim", "serves_properties": ["C01", "C02", "C04", "C05", "C07", "C08", "C13", "C14", "C15", "C18"], "kind_free_text": "simulated beacon network on the real state transition; metamorphic/self oracles + fault enumeration"},
+ {"name": "refspec", "path": "sim/refspec", "serves_properties": ["C01", "C02", "C07", "C13"], "kind_free_text": "independent executable reference model of the consensus spec (oracle, not an engine)"},
  {"name": "fcsim", "path": "sim/fcsim", "serves_properties": ["C09", "C10", "C11"], "kind_free_text": "abstract block-tree histories on the real ProtoForkChoice/ProtoArray/ProtoVoteStore vs. naive GHOST + tree walk"},
 ]
 m = {
